@@ -139,6 +139,7 @@ type FuncSpec struct {
 	Pos      string
 	Bound    bool // set when matched to an SSA function
 	NoNil    []string
+	RefinesPre   []Clause // refinement run only: the concrete preconditions, proved at entry from the interface's
 	RefinesIface string // "pkgname.Iface.Method": this method implements that interface contract ...
 	RefinesAbs   string // ... under this abstraction (absmacro set)
 	Nilable  map[string]bool // parameters that may be nil (exempt from the default non-nil precondition of the safety sweep)
